@@ -5,6 +5,8 @@
 import Winter.Model.Protocol
 import Winter.Gen.FriOpts
 import Winter.Gen.ProofOpts
+import Winter.Gen.Degree
+import Winter.Gen.AirContext
 import WinterProofs.Lemmas.GenTactic
 
 namespace C01G
@@ -112,5 +114,175 @@ theorem gen_num_fri_layers_eq_schedule (o : Options) (h : o.accepted = true) (ld
   unfold Options.accepted at h
   simp only [Bool.and_eq_true, decide_eq_true_eq] at h
   exact gen_num_fri_layers_eq_friLayers _ _ _ _ _ h.1.1.1.2 hd hN
+
+/-! ## air/src/air/transition/degree.rs and air/src/air/context.rs (Winter/Gen/Degree.lean, AirContext.lean) -/
+
+/-- the translated `for` loop of `get_evaluation_degree` adds the model's cycle terms to the running sum -/
+theorem evalLoop_eq (n : Nat) : ∀ (cs : List Nat) (r : Nat),
+    Gen.Degree.get_evaluation_degree.for1 n cs r = r + (cs.map (fun c => (n / c) * (c - 1))).sum := by
+  intro cs
+  induction cs with
+  | nil => intro r; simp [Gen.Degree.get_evaluation_degree.for1]
+  | cons c t ih =>
+    intro r
+    rw [Gen.Degree.get_evaluation_degree.for1]
+    unfold_gen Gen.Degree
+    rw [ih]; simp only [List.map_cons, List.sum_cons]; omega
+
+/-- ★ `TransitionConstraintDegree::get_evaluation_degree` (regenerated) is the model's `evalDegree`, for
+    ALL arguments -/
+theorem gen_get_evaluation_degree_eq (d : Degree) (n : Nat) :
+    Gen.Degree.get_evaluation_degree d.base d.cycles n = d.evalDegree n := by
+  unfold Degree.evalDegree
+  unfold_gen Gen.Degree
+  rw [evalLoop_eq]
+
+/-- no overflow / underflow in the loop: every cycle length is non-zero and the final sum fits a `usize`
+    (the partial sums are increasing) -/
+theorem evalLoop_ok (n : Nat) : ∀ (cs : List Nat) (r : Nat),
+    Gen.Degree.get_evaluation_degree.for1_ok n cs r = true ↔
+      ((∀ c ∈ cs, c ≠ 0) ∧ (cs = [] ∨ r + (cs.map (fun c => (n / c) * (c - 1))).sum < 18446744073709551616)) := by
+  intro cs
+  induction cs with
+  | nil => intro r; simp [Gen.Degree.get_evaluation_degree.for1_ok]
+  | cons c t ih =>
+    intro r
+    rw [Gen.Degree.get_evaluation_degree.for1_ok]
+    unfold_gen Gen.Degree
+    simp only [Bool.and_eq_true, decide_eq_true_eq, ih, List.mem_cons, forall_eq_or_imp, List.map_cons,
+      List.sum_cons, reduceCtorEq, false_or, ne_eq]
+    have hsum : ∀ t : List Nat, 0 ≤ (t.map (fun c => (n / c) * (c - 1))).sum := fun _ => Nat.zero_le _
+    constructor
+    · rintro ⟨⟨⟨⟨h1, h2⟩, h3⟩, h4⟩, h5, h6⟩
+      refine ⟨⟨h1, h5⟩, ?_⟩
+      rcases h6 with h6 | h6
+      · subst h6; simp; omega
+      · omega
+    · rintro ⟨⟨h1, h5⟩, h6⟩
+      refine ⟨⟨⟨⟨h1, by omega⟩, by omega⟩, by omega⟩, h5, ?_⟩
+      by_cases ht : t = []
+      · exact Or.inl ht
+      · right; omega
+
+/-- ★ its no-panic condition, exactly: a non-empty trace (`trace_length - 1`), no zero cycle length
+    (`trace_length / cycle_length`) and a result that fits a `usize` -/
+theorem gen_get_evaluation_degree_ok_iff (d : Degree) (n : Nat) :
+    Gen.Degree.get_evaluation_degree_ok d.base d.cycles n = true ↔
+      (1 ≤ n ∧ (∀ c ∈ d.cycles, c ≠ 0) ∧ d.evalDegree n < 18446744073709551616) := by
+  unfold Degree.evalDegree
+  unfold_gen Gen.Degree
+  simp only [Bool.and_eq_true, decide_eq_true_eq, evalLoop_ok]
+  constructor
+  · rintro ⟨⟨h1, h2⟩, h3, h4⟩
+    refine ⟨h1, h3, ?_⟩
+    rcases h4 with h4 | h4
+    · rw [h4]; simpa using h2
+    · exact h4
+  · rintro ⟨h1, h3, h4⟩
+    exact ⟨⟨h1, by omega⟩, h3, Or.inr h4⟩
+
+/-- ★ `min_blowup_factor` (regenerated) is the model's `minBlowup`, for ALL arguments; it does not panic
+    exactly when `base + cycles.len()` is at least one and fits, and the power of two fits -/
+theorem gen_min_blowup_factor_eq (d : Degree) :
+    Gen.Degree.min_blowup_factor d.base d.cycles = d.minBlowup ∧
+    (Gen.Degree.min_blowup_factor_ok d.base d.cycles = true ↔
+      (d.base + d.cycles.length < 18446744073709551616 ∧ 1 ≤ d.base + d.cycles.length ∧
+        nextPow2 (d.base + d.cycles.length - 1) < 18446744073709551616)) := by
+  have hn : ∀ x, Gen.nextPow2 x = nextPow2 x := fun _ => rfl
+  unfold Degree.minBlowup
+  unfold_gen Gen.Degree
+  simp only [hn, Bool.and_eq_true, decide_eq_true_eq]
+  refine ⟨trivial, ?_⟩
+  constructor <;> intro h <;> grind
+
+/-- the translated maximum loop of `num_constraint_composition_columns` -/
+theorem highestLoop_eq (n : Nat) (ok : Degree → Nat → Bool) : ∀ (ds : List Degree) (h : Nat),
+    Gen.AirContext.num_constraint_composition_columns.for1 (fun d m => d.evalDegree m) ok n ds h =
+      (ds.map (·.evalDegree n)).foldl max h := by
+  intro ds
+  induction ds with
+  | nil => intro h; simp [Gen.AirContext.num_constraint_composition_columns.for1]
+  | cons d t ih =>
+    intro h
+    rw [Gen.AirContext.num_constraint_composition_columns.for1]
+    unfold_gen Gen.AirContext
+    rw [ih]
+    simp only [List.map_cons, List.foldl_cons, gt_iff_lt]
+    congr 1
+    by_cases hc : h < d.evalDegree n
+    · simp [hc]; omega
+    · simp [hc]; omega
+
+theorem highestLoop_ok (n : Nat) (ok : Degree → Nat → Bool) : ∀ (ds : List Degree) (h : Nat),
+    Gen.AirContext.num_constraint_composition_columns.for1_ok (fun d m => d.evalDegree m) ok n ds h = true ↔
+      ∀ d ∈ ds, ok d n = true := by
+  intro ds
+  induction ds with
+  | nil => intro h; simp [Gen.AirContext.num_constraint_composition_columns.for1_ok]
+  | cons d t ih =>
+    intro h
+    rw [Gen.AirContext.num_constraint_composition_columns.for1_ok]
+    unfold_gen Gen.AirContext
+    simp only [Bool.and_eq_true, decide_eq_true_eq, ih, List.mem_cons, forall_eq_or_imp]
+
+/-- ★ `AirContext::num_constraint_composition_columns` (regenerated; the degrees' `get_evaluation_degree`
+    enters as a function parameter, instantiated with the model's `evalDegree`) is the model's
+    `compositionColumns` of the main and auxiliary degrees, for ALL arguments -/
+theorem gen_composition_columns_eq (ok : Degree → Nat → Bool) (md ad : List Degree) (n e : Nat) :
+    Gen.AirContext.num_constraint_composition_columns (fun d m => d.evalDegree m) ok ad md e n =
+      compositionColumns (md ++ ad) n e := by
+  unfold compositionColumns highestDegree
+  unfold_gen Gen.AirContext
+  rw [highestLoop_eq]
+
+/-- ★ its no-panic condition, exactly: every `get_evaluation_degree` call succeeds, the exemptions do not
+    exceed the trace length, the highest evaluation degree is at least the divisor degree (the checked
+    subtraction `highest_constraint_degree - transition_divisior_degree`), the trace is non-empty -/
+theorem gen_composition_columns_ok_iff (ok : Degree → Nat → Bool) (md ad : List Degree) (n e : Nat) :
+    Gen.AirContext.num_constraint_composition_columns_ok (fun d m => d.evalDegree m) ok ad md e n = true ↔
+      ((∀ d ∈ md ++ ad, ok d n = true) ∧ e ≤ n ∧ n - e ≤ highestDegree (md ++ ad) n ∧ n ≠ 0 ∧
+        (highestDegree (md ++ ad) n - (n - e)) / n + 1 < 18446744073709551616) := by
+  unfold highestDegree
+  unfold_gen Gen.AirContext
+  simp only [Bool.and_eq_true, decide_eq_true_eq, highestLoop_ok, highestLoop_eq]
+  constructor <;> intro h <;> grind
+
+/-- ★ the accessors of `AirContext` against the quantities of the model's `glue`:
+    `trace_poly_degree = n - 1`, `ce_domain_size = n · ce_blowup`, `lde_domain_size = n · blowup`
+    (with their exact no-overflow conditions), `num_assertions`, `num_transition_constraints` -/
+theorem gen_context_accessors (n ce b : Nat) :
+    Gen.AirContext.trace_len n = n ∧
+    Gen.AirContext.trace_poly_degree n = n - 1 ∧ (Gen.AirContext.trace_poly_degree_ok n = true ↔ 1 ≤ n) ∧
+    Gen.AirContext.ce_domain_size ce n = n * ce ∧
+    (Gen.AirContext.ce_domain_size_ok ce n = true ↔ n * ce < 18446744073709551616) ∧
+    Gen.AirContext.lde_domain_size b n = n * b ∧
+    (Gen.AirContext.lde_domain_size_ok b n = true ↔ n * b < 18446744073709551616) := by
+  unfold_gen Gen.AirContext
+  simp
+
+/-- ★ on everything the constructors accept (`glue … = ok g`): the regenerated accessors return the
+    quantities of `g`, and `num_constraint_composition_columns` does not panic (sizes within `usize`,
+    every `get_evaluation_degree` call succeeding) -/
+theorem gen_glue (n : Nat) (o : Options) (e mw aw nr : Nat) (md ad : List Degree) (g : Glue)
+    (h : glue n o e mw aw nr md ad = .ok g) :
+    g.tracePolyDegree = Gen.AirContext.trace_poly_degree n ∧
+    g.ceDomain = Gen.AirContext.ce_domain_size g.ceBlowup n ∧
+    g.ldeDomain = Gen.AirContext.lde_domain_size o.blowup n ∧
+    g.columns = Gen.AirContext.num_constraint_composition_columns (fun d m => d.evalDegree m)
+      (fun _ _ => true) ad md e n := by
+  rw [gen_composition_columns_eq]
+  unfold glue at h
+  split at h; · cases h
+  split at h; · cases h
+  split at h; · cases h
+  split at h; · cases h
+  split at h; · cases h
+  simp only [] at h
+  split at h; · cases h
+  split at h; · cases h
+  injection h with h
+  subst h
+  unfold_gen Gen.AirContext
+  exact ⟨rfl, rfl, rfl, rfl⟩
 
 end C01G
